@@ -276,3 +276,32 @@ func init() {
 		Rule:   "one state per completed symbolic path of ParseBytes",
 	}
 }
+
+func init() {
+	checks["C13"] = &CheckDef{
+		ID: "C13",
+		Jobs: func(tier string, p *Program) []*Job {
+			maxD := 5
+			if tier == "thorough" {
+				maxD = 6
+			}
+			var jobs []*Job
+			for d := 1; d <= maxD; d++ {
+				j := mkJob("/inputrc.ZZ_C13_Cond", "", "d", itoa(d))
+				if d >= 2 {
+					j.Reach = []string{"wellformed"}
+				}
+				jobs = append(jobs, j)
+			}
+			return jobs
+		},
+		Assumptions: []string{
+			"programs are sequences of d directives over {$if mode=, $if term=, $if app, $else, $endif, set keymap, set var on|off, \"\\C-x<i>\": fn, Meta-<i>: \"macro\"}; only well-formed ones (balanced $if/$endif, at most one $else per $if) are compared",
+			"literals are chosen where GNU readline's and this library's readings coincide (terminal names without '-', lower-case application names)",
+			"handler is an empty inputrc.Config",
+		},
+		Stubs:  []string{"bufio.Scanner/bytes.Reader interpreted"},
+		Bounds: map[string]string{"quick": "program length d <= 5; directive kind per slot, condition names and the parser's (mode, term, app) symbolic", "thorough": "d <= 6"},
+		Rule:   "one state per completed symbolic path: directive kinds are symbolic ints, $if operands and the parser's mode/term/app are names with a symbolic letter, so which conditions hold is decided by the solver; assertions compare the real Config with the reference evaluator",
+	}
+}
